@@ -10,6 +10,7 @@ import (
 	"math/rand"
 	"os"
 	"sort"
+	"strings"
 	"time"
 
 	"github.com/google/uuid"
@@ -34,6 +35,13 @@ var c15FsNames = []string{
 	"heads/a", "heads/b/c", "heads/ab", "heads/A", "heads/%", "heads/_", "tags/a", "remotes/o/main", "remotes/origin/main", "txs/1/a",
 	"heads/feature/beta_1", "remotes/Origin_2/main",
 }
+
+// remotes, directory prefixes and log-entry fields of the file-store cases (see c15FsDomain)
+var c15FsRemotes = []string{"my_repo", "myXrepo", "MY_REPO", "my%repo", "o", "origin", "my_", "origin/eu", "Origin_2"}
+var c15FsPrefixes = []string{"", "heads/", "heads/b/", "heads/feature/", "remotes/", "remotes/my_repo/", "remotes/my_repo/y/", "remotes/origin/",
+	"remotes/o/", "remotes/my%repo/", "remotes/my_/", "remotes/MY_REPO/", "tags/", "txs/", "txs/1/", "HEADS/", "heads/a/"}
+var c15FsAuthors = [][]string{{"a", "e"}, {"Ann Lee", "ann@example.com"}, {"b_%", "B@Example.com"}, {"Zoë Åberg-Li", "z1@x.io"}, {"solo", ""}}
+var c15FsActions = []string{"act", "commit", "fetch", "merge", "branch 2"}
 
 var c15Names = []string{
 	"remotes/my_repo/x", "remotes/myXrepo/x", "remotes/MY_REPO/x", "remotes/my_repo/y/z", "remotes/my%repo/x",
@@ -83,7 +91,11 @@ func c15Run(in *c15Input) Res {
 		var rs ref.Store
 		var sqlDB *sql.DB
 		cliDir := ""
-		if in.Store == "fs" {
+		fs := in.Store == "fs"
+		if fs {
+			if why := c15FsDomain(in); why != "" {
+				return Err("fs-domain: " + why)
+			}
 			dir, err := os.MkdirTemp(privateTmp(), "reffs-")
 			if err != nil {
 				return Err("tmpdir")
@@ -117,6 +129,16 @@ func c15Run(in *c15Input) Res {
 		}
 		out := []interface{}{}
 		txMade := map[uuid.UUID]bool{}
+		// file store (c15FsDomain a2): the entry's old value is the caller's business — the runner
+		// does what ref.SaveRef does and hands in the value Get returns just before the call
+		callerOld := func(name string, rl *ref.Reflog) *ref.Reflog {
+			if fs {
+				if b, err := rs.Get(name); err == nil {
+					rl.OldOID = b
+				}
+			}
+			return rl
+		}
 		okErr := func(err error) {
 			if err != nil {
 				out = append(out, "err")
@@ -146,7 +168,7 @@ func c15Run(in *c15Input) Res {
 			case "set":
 				okErr(rs.Set(s(1), unhx(s(2))))
 			case "setlog":
-				okErr(rs.SetWithLog(s(1), unhx(s(2)), &ref.Reflog{NewOID: unhx(s(2)), AuthorName: "a", AuthorEmail: "e", Time: time.Unix(1700000000, 0), Action: "act", Message: s(3)}))
+				okErr(rs.SetWithLog(s(1), unhx(s(2)), callerOld(s(1), &ref.Reflog{NewOID: unhx(s(2)), AuthorName: "a", AuthorEmail: "e", Time: time.Unix(1700000000, 0), Action: "act", Message: s(3)})))
 			case "setlogold":
 				// the caller supplies a stale old value: the store must log the value the ref really held
 				okErr(rs.SetWithLog(s(1), unhx(s(2)), &ref.Reflog{OldOID: unhx(s(4)), NewOID: unhx(s(2)), AuthorName: "a", AuthorEmail: "e", Time: time.Unix(1700000000, 0), Action: "act", Message: s(3)}))
@@ -168,7 +190,7 @@ func c15Run(in *c15Input) Res {
 					}
 					rl.Txid = &id
 				}
-				okErr(rs.SetWithLog(s(1), unhx(s(2)), rl))
+				okErr(rs.SetWithLog(s(1), unhx(s(2)), callerOld(s(1), rl)))
 			case "setlogfail":
 				// the reflog insert fails (trigger): ref and log are one SQL transaction, nothing may change
 				if sqlDB == nil {
@@ -200,6 +222,9 @@ func c15Run(in *c15Input) Res {
 				} else {
 					if ks == nil {
 						ks = []string{}
+					}
+					if fs {
+						sort.Strings(ks) // c15FsDomain a5: the file store's order is unspecified
 					}
 					out = append(out, ks)
 				}
@@ -286,39 +311,6 @@ func genC15(r *rand.Rand, thorough bool, txlog bool) *c15Input {
 		n = 5 + r.Intn(60)
 	}
 	in := &c15Input{}
-	if os.Getenv("VERIF_C15_FS") == "1" && r.Intn(5) == 0 {
-		// the legacy file store (pkg/ref/fs): not generated by default. It is reachable from no command
-		// (only a migration test builds a repository with it) and differs from the map-with-logs
-		// model by design: reflog entries carry no old value, rename overwrites an existing name,
-		// prefix filters walk directories and ignore all but the first prefix. See DESIGN.md §0.7.
-		in.Store = "fs"
-		nm := func() string { return c15FsNames[r.Intn(len(c15FsNames))] }
-		for i := 0; i < n; i++ {
-			var op []interface{}
-			switch x := r.Intn(14); {
-			case x < 2:
-				op = []interface{}{"set", nm(), c15Sum(r)}
-			case x < 7:
-				op = []interface{}{"setlog", nm(), c15Sum(r), "m" + itoa(i)}
-			case x < 9:
-				op = []interface{}{"get", nm()}
-			case x < 10:
-				op = []interface{}{"del", nm()}
-			case x < 12:
-				op = []interface{}{"rename", nm(), nm()}
-			case x < 13:
-				op = []interface{}{"copy", nm(), nm()}
-			default:
-				op = []interface{}{"log", nm()}
-			}
-			in.Ops = append(in.Ops, op)
-		}
-		in.Ops = append(in.Ops, []interface{}{"filter", []string{}, []string{}})
-		for _, x := range c15FsNames {
-			in.Ops = append(in.Ops, []interface{}{"log", x})
-		}
-		return in
-	}
 	if r.Intn(6) == 0 {
 		in.ViaCLI = true
 	}
@@ -429,6 +421,12 @@ func c15Nontrivial(in *c15Input) bool {
 }
 
 func runC15(ctx *Ctx) {
+	// every fifth case: a history on the file-based store (pkg/ref/fs), see genC15Fs
+	if ctx.Idx%5 == 2 {
+		in := genC15Fs(ctx.R, ctx.Thorough())
+		ctx.Emit("ops", in, c15Run(in), true, "store=fs")
+		return
+	}
 	// every fourth case: log entries with generated author/action/time/transaction id ("txlog")
 	txlog := ctx.Idx%4 == 1
 	in := genC15(ctx.R, ctx.Thorough(), txlog)
@@ -452,4 +450,423 @@ func corpusC15(ctx *Ctx, op string, raw json.RawMessage) {
 func setOnlyRemote(dir, name string) {
 	q, _ := json.Marshal(name)
 	os.WriteFile(filepath.Join(dir, "config.yaml"), []byte("remote:\n  "+string(q)+":\n    url: http://example.invalid/r\n"), 0644)
+}
+
+// ---------------------------------------------------------------------------------------------
+// The file-based ref store (pkg/ref/fs; log reader: pkg/ref/fs/logreader.go over
+// pkg/misc/backward_scanner.go), 1 case in 5, tag "store=fs".
+//
+// The oracle is the same abstract map with per-name logs as for the SQL store, in its file-store
+// form (Lean: `stepAF`, Spec/RefStore.lean): deleting an unbound name is an error that changes
+// nothing; rename/copy REPLACE a bound destination (value and log), as assigning to a map entry
+// does. Everything else is the map's own step.
+//
+// c15FsDomain is the explicit list of what is NOT asked of the file store. It is enforced twice:
+// the generator only emits sequences inside it, and the runner refuses a sequence outside it
+// (result "fs-domain", so a shrunk or hand-written input cannot wander out of it unnoticed).
+//
+// (a) not implemented by / meaningless for the file store — excluded, or normalised by the runner:
+//  a1. names are files: a name is a clean relative path (non-empty components, none "." or ".."),
+//      and no name of the sequence is a directory of another ("heads/a" and "heads/a/b"). The
+//      directories a name needs stay behind after a delete/rename and are created even by a failing
+//      rename, so the rule is over all names the sequence mentions, bound or not.
+//  a2. a log entry's old value is not computed by the store: it writes the entry it is handed. The
+//      runner therefore hands in the value Get returns just before the call — what ref.SaveRef, the
+//      caller of every logged set in wrgl, does — and the entry read back is compared in full (old
+//      value included). A stale caller-supplied old value (`setlogold`) and the SQL fault
+//      (`setlogfail`) do not apply.
+//  a3. no transactions (NewTransaction is "not implemented", the log text has no field for the
+//      id): entries are written without a transaction id and must read back without one.
+//  a4. the log is a text line (pkg/ref/reflog.go): author non-empty, without ASCII digits, '<',
+//      leading/trailing blanks; e-mail without '>'; action non-empty without ':'; no line breaks
+//      anywhere; time 0 <= t < 10^10 s. Fields outside that are not representable (b4 below).
+//  a5. Filter/FilterKey take ONE directory: at most one prefix, which is "" or a clean path ending
+//      in '/', and no excluded prefixes (b5 below). FilterKey's order is unspecified (breadth-first
+//      directory walk): the runner sorts it.
+//  a6. bulk rename of a remote onto a remote whose path is nested in it (or the reverse): the
+//      outcome depends on the unspecified FilterKey order.
+// (b) behaviour of implemented operations that contradicts the map — kept out of the generated
+//     sequences only because it would alarm on the unchanged tree (v1, v2: any two values):
+//  b1. Copy of a bound name that has no log returns an error after having written the destination:
+//      set heads/a v1; copy heads/a heads/ab -> error; get heads/ab -> v1.
+//  b2. Rename (also bulk) / Copy of a name without log onto a name that has a log: the destination
+//      keeps its own old log under the new value (the log is not the source's):
+//      set heads/a v1; logged set heads/ab v2 "m"; rename heads/a heads/ab -> ok; get heads/ab -> v1;
+//      log heads/ab -> [the entry "m" for v2].
+//  b3. Copy of a name onto itself truncates it: logged set heads/a v1; copy heads/a heads/a -> ok;
+//      get heads/a -> empty value, no error; log heads/a -> nothing.
+//  b4. log fields of a4 are written unescaped and come back garbled, as a read error or a panic of
+//      the reader: author "R2D2" or "" -> "couldn't parse author name"; action "" -> "couldn't parse
+//      action"; action "re:set" -> action "re", message "et: m"; e-mail "x>y" -> time parse error;
+//      message "l1\nl2" -> Reflog.Read panics (slice bounds out of range) on the second line.
+//  b5. further prefixes and all excluded prefixes are silently ignored (FilterKey(["heads/","tags/"])
+//      lists heads only, FilterKey([],["heads/"]) lists heads too); a prefix that is not a
+//      directory path matches nothing (FilterKey(["heads/a"]) = [] with heads/a and heads/ab bound).
+// ---------------------------------------------------------------------------------------------
+
+type c15FsState struct {
+	val       map[string]bool // bound names
+	log       map[string]bool // names with a non-empty log
+	mentioned map[string]bool // every name the sequence has named so far (a1)
+	order     []string        // the same, in order of first mention
+}
+
+func newC15FsState() *c15FsState {
+	return &c15FsState{val: map[string]bool{}, log: map[string]bool{}, mentioned: map[string]bool{}}
+}
+
+func c15CleanPath(p string) bool {
+	if p == "" {
+		return false
+	}
+	for _, c := range strings.Split(p, "/") {
+		if c == "" || c == "." || c == ".." {
+			return false
+		}
+	}
+	return !strings.ContainsAny(p, "\x00\n")
+}
+
+func c15Nested(a, b string) bool { return a != b && (strings.HasPrefix(b, a+"/") || strings.HasPrefix(a, b+"/")) }
+
+// mention checks rule a1 for the names and records them
+func (t *c15FsState) mention(names ...string) string {
+	for _, n := range names {
+		if !c15CleanPath(n) {
+			return "a1: name is not a clean relative path: " + n
+		}
+	}
+	for i, n := range names {
+		for m := range t.mentioned {
+			if c15Nested(n, m) {
+				return "a1: " + n + " and " + m + ": one is a directory of the other"
+			}
+		}
+		for _, m := range names[:i] {
+			if c15Nested(n, m) {
+				return "a1: " + n + " and " + m + ": one is a directory of the other"
+			}
+		}
+	}
+	for _, n := range names {
+		if !t.mentioned[n] {
+			t.mentioned[n] = true
+			t.order = append(t.order, n)
+		}
+	}
+	return ""
+}
+
+func (t *c15FsState) under(pfx string) []string {
+	l := []string{}
+	for n := range t.val {
+		if strings.HasPrefix(n, pfx) {
+			l = append(l, n)
+		}
+	}
+	sort.Strings(l)
+	return l
+}
+
+func c15FsPrefixOK(ps, nps []string) string {
+	if len(nps) > 0 || len(ps) > 1 {
+		return "a5: one directory prefix at most, no excluded prefixes"
+	}
+	if len(ps) == 1 && ps[0] != "" && !(strings.HasSuffix(ps[0], "/") && c15CleanPath(strings.TrimSuffix(ps[0], "/"))) {
+		return "a5: prefix is not a directory path: " + ps[0]
+	}
+	return ""
+}
+
+func c15FsLogFieldsOK(msg, txid, author, email, action string, t int64) string {
+	switch {
+	case txid != "":
+		return "a3: no transactions"
+	case author == "" || strings.ContainsAny(author, "0123456789<\n\r") || strings.TrimSpace(author) != author:
+		return "a4: author"
+	case strings.ContainsAny(email, ">\n\r"):
+		return "a4: e-mail"
+	case action == "" || strings.ContainsAny(action, ":\n\r"):
+		return "a4: action"
+	case strings.ContainsAny(msg, "\n\r"):
+		return "a4: message"
+	case t < 0 || t >= 10000000000:
+		return "a4: time"
+	}
+	return ""
+}
+
+// step says why op lies outside the file store's domain in state t ("" = inside) and, when it is
+// inside, moves t the way the map moves (bound / has-a-log only).
+func (t *c15FsState) step(op []interface{}) string {
+	s := func(i int) string {
+		if i < len(op) {
+			if x, ok := op[i].(string); ok {
+				return x
+			}
+		}
+		return ""
+	}
+	if len(op) == 0 {
+		return "empty op"
+	}
+	move := func(o, n string, keep bool) {
+		// the map's rename (keep=false) / copy (keep=true) onto n, replacing it
+		if !t.val[o] || o == n {
+			return
+		}
+		t.val[n] = true
+		if t.log[o] {
+			t.log[n] = true
+		} else {
+			delete(t.log, n)
+		}
+		if !keep {
+			delete(t.val, o)
+			delete(t.log, o)
+		}
+	}
+	switch s(0) {
+	case "set":
+		if r := t.mention(s(1)); r != "" {
+			return r
+		}
+		t.val[s(1)] = true
+	case "setlog":
+		if r := t.mention(s(1)); r != "" {
+			return r
+		}
+		if r := c15FsLogFieldsOK(s(3), "", "a", "e", "act", 1700000000); r != "" {
+			return r
+		}
+		t.val[s(1)], t.log[s(1)] = true, true
+	case "setlogx":
+		if len(op) != 9 {
+			return "setlogx: 9 fields"
+		}
+		if r := t.mention(s(1)); r != "" {
+			return r
+		}
+		if r := c15FsLogFieldsOK(s(3), s(4), s(5), s(6), s(7), c15Num(op[8])); r != "" {
+			return r
+		}
+		t.val[s(1)], t.log[s(1)] = true, true
+	case "get", "log":
+		return t.mention(s(1))
+	case "del":
+		if r := t.mention(s(1)); r != "" {
+			return r
+		}
+		delete(t.val, s(1))
+		delete(t.log, s(1))
+	case "filter", "filterkey":
+		if len(op) != 3 {
+			return "filter: 3 fields"
+		}
+		return c15FsPrefixOK(strs(op[1]), strs(op[2]))
+	case "listrefs":
+		p := s(1)
+		if p != "heads/" && p != "tags/" && !(strings.HasPrefix(p, "remotes/") && len(p) > len("remotes/")+1) {
+			return "listrefs: heads/, tags/ or remotes/<r>/"
+		}
+		return c15FsPrefixOK([]string{p}, nil)
+	case "rename", "copy":
+		o, n := s(1), s(2)
+		if r := t.mention(o, n); r != "" {
+			return r
+		}
+		if s(0) == "copy" {
+			if o == n {
+				return "b3: copy of a name onto itself"
+			}
+			if t.val[o] && !t.log[o] {
+				return "b1: copy of a bound name without log"
+			}
+		}
+		if t.val[o] && !t.log[o] && t.log[n] && o != n {
+			return "b2: source without log onto a destination with a log"
+		}
+		move(o, n, s(0) == "copy")
+	case "delallremote":
+		if !c15CleanPath(s(1)) {
+			return "a1: remote is not a clean relative path"
+		}
+		for _, k := range t.under("remotes/" + s(1) + "/") {
+			delete(t.val, k)
+			delete(t.log, k)
+		}
+	case "renameallremote":
+		o, n := s(1), s(2)
+		if !c15CleanPath(o) || !c15CleanPath(n) {
+			return "a1: remote is not a clean relative path"
+		}
+		if c15Nested(o, n) {
+			return "a6: one remote nested in the other"
+		}
+		keys := t.under("remotes/" + o + "/")
+		dst := []string{}
+		for _, k := range keys {
+			d := "remotes/" + n + "/" + k[len("remotes/"+o+"/"):]
+			dst = append(dst, d)
+			if !t.log[k] && t.log[d] && k != d {
+				return "b2: source without log onto a destination with a log"
+			}
+		}
+		if r := t.mention(dst...); r != "" {
+			return r
+		}
+		for i, k := range keys {
+			move(k, dst[i], false)
+		}
+	default:
+		return "operation not applicable to the file store: " + s(0)
+	}
+	return ""
+}
+
+// c15FsDomain: "" when the whole sequence lies inside the file store's domain
+func c15FsDomain(in *c15Input) string {
+	t := newC15FsState()
+	for i, op := range in.Ops {
+		if r := t.step(op); r != "" {
+			return "op " + itoa(i) + ": " + r
+		}
+	}
+	return ""
+}
+
+var c15FsWords = []string{"fix", "merge 1a2b3c4, 5d6e7f8", "[from origin] storing head", "update", "x", "rows: 12 <-> 13", "é", "initial commit", "%_", "a  b", "rename", "0"}
+
+// genC15Fs: a history on the file store. A few "hot" refs receive most of the logged sets, so
+// their logs grow to dozens of entries of varying length — several 1024-byte chunks of the
+// backward scanner that the log reader sits on — and are carried around by rename/copy, into
+// directories that have held no log before as well; logs are read in between and, at the end,
+// for every name the history has touched.
+func genC15Fs(r *rand.Rand, thorough bool) *c15Input {
+	in := &c15Input{Store: "fs"}
+	st := newC15FsState()
+	n := 60 + r.Intn(70)
+	if thorough {
+		n = 40 + r.Intn(220)
+	}
+	pool := append([]string{}, c15FsNames...)
+	nm := func() string { return pool[r.Intn(len(pool))] }
+	hot := []string{nm(), nm(), nm()}
+	bound := func() string {
+		l := st.under("")
+		if len(l) == 0 || r.Intn(5) == 0 {
+			return nm()
+		}
+		return l[r.Intn(len(l))]
+	}
+	remote := func() string {
+		// mostly a remote that has refs at the moment
+		if r.Intn(3) != 0 {
+			live := []string{}
+			for _, x := range c15FsRemotes {
+				if len(st.under("remotes/"+x+"/")) > 0 {
+					live = append(live, x)
+				}
+			}
+			if len(live) > 0 {
+				return live[r.Intn(len(live))]
+			}
+		}
+		return c15FsRemotes[r.Intn(len(c15FsRemotes))]
+	}
+	pfx := func() []string {
+		if r.Intn(6) == 0 {
+			return []string{}
+		}
+		return []string{c15FsPrefixes[r.Intn(len(c15FsPrefixes))]}
+	}
+	msg := func(i int) string {
+		m := "m" + itoa(i)
+		k := r.Intn(3)
+		if r.Intn(4) == 0 {
+			k = r.Intn(14)
+		}
+		for j := 0; j < k; j++ {
+			m += " " + c15FsWords[r.Intn(len(c15FsWords))]
+		}
+		if r.Intn(12) == 0 {
+			m = ""
+		}
+		return m
+	}
+	add := func(op []interface{}) {
+		if st.step(op) != "" {
+			// outside the domain in this state (c15FsDomain): observe instead
+			op = []interface{}{"get", nm()}
+			st.step(op)
+		}
+		in.Ops = append(in.Ops, op)
+	}
+	for i := 0; i < n; i++ {
+		var op []interface{}
+		switch x := r.Intn(40); {
+		case x < 19:
+			k := hot[r.Intn(len(hot))]
+			if r.Intn(6) == 0 {
+				k = nm()
+			}
+			au := c15FsAuthors[r.Intn(len(c15FsAuthors))]
+			t := 1700000000 + r.Intn(100000)
+			if r.Intn(10) == 0 {
+				t = r.Intn(100000)
+			}
+			op = []interface{}{"setlogx", k, c15Sum(r), msg(i), "", au[0], au[1], c15FsActions[r.Intn(len(c15FsActions))], t}
+			if r.Intn(8) == 0 {
+				op = []interface{}{"setlog", k, c15Sum(r), "m" + itoa(i)}
+			}
+		case x < 21:
+			op = []interface{}{"set", nm(), c15Sum(r)}
+		case x < 23:
+			op = []interface{}{"get", nm()}
+		case x < 24:
+			op = []interface{}{"del", bound()}
+		case x < 27:
+			op = []interface{}{"rename", bound(), nm()}
+		case x < 29:
+			op = []interface{}{"copy", bound(), nm()}
+		case x < 32:
+			k := hot[r.Intn(len(hot))]
+			if r.Intn(3) == 0 {
+				k = bound()
+			}
+			op = []interface{}{"log", k}
+		case x < 34:
+			op = []interface{}{"filter", pfx(), []string{}}
+		case x < 35:
+			op = []interface{}{"filterkey", pfx(), []string{}}
+		case x < 37:
+			op = []interface{}{"listrefs", []string{"heads/", "tags/", "remotes/" + remote() + "/"}[r.Intn(3)]}
+		case x < 38:
+			op = []interface{}{"delallremote", remote()}
+		default:
+			op = []interface{}{"renameallremote", remote(), remote()}
+		}
+		add(op)
+		// names made by a bulk rename join the alphabet
+		for _, k := range st.order {
+			seen := false
+			for _, q := range pool {
+				if q == k {
+					seen = true
+					break
+				}
+			}
+			if !seen {
+				pool = append(pool, k)
+			}
+		}
+	}
+	// final observation of everything: all refs, and the log of every name the history has named
+	in.Ops = append(in.Ops, []interface{}{"filter", []string{}, []string{}})
+	all := append([]string{}, pool...)
+	sort.Strings(all)
+	for _, k := range all {
+		in.Ops = append(in.Ops, []interface{}{"log", k})
+	}
+	return in
 }
